@@ -221,6 +221,22 @@ def removeEvent (eid : Nat) : SimM Unit := do
 def editEvent (eid : Nat) (f : SEvent → SEvent) : SimM Unit :=
   modify fun s => { s with queue := s.queue.map (fun e => if e.ev.eid == eid then f e else e) }
 
+/-- The id of the cached TASK_PLACEMENT event object that `placementEvents time p` re-times
+in state `s` (task SCHEDULED, `p` placed, a cached future placement event), if any. -/
+def cachedOf (s : SimS) (p : PlacementS) : Option Nat :=
+  match (s.graphs[p.task.g]?).bind (·.task? p.task.t) with
+  | some x => if x.state == .scheduled && p.isPlaced then s.future.get? p.task else none
+  | none => none
+
+/-- The same in-place edit on events that are still pending in the local list of
+`__handle_scheduler_finish` (created by an earlier placement of the same answer, not yet
+queued): the code mutates the event OBJECT, wherever it is. -/
+def editPending (c : Option Nat) (p : PlacementS) (evs : List SEvent) : List SEvent :=
+  match c, p.time with
+  | some eid, some pt =>
+    evs.map (fun e => if e.ev.eid == eid then { e with ev := { e.ev with time := pt }, placement := some p } else e)
+  | _, _ => evs
+
 def findEvent (eid : Nat) : SimM (Option SEvent) := do
   pure ((← get).queue.find? (fun e => e.ev.eid == eid))
 
@@ -352,7 +368,10 @@ def placementSkip (time : Int) (p : PlacementS) (drop : Bool) : SimM (List SEven
     | none => pure ()
     return []
 
-/-- `__create_events_from_task_placement`. -/
+/-- `__create_events_from_task_placement`. For a SCHEDULED task with a cached future placement event the
+source mutates the cached event OBJECT; here the queue is edited (`editEvent`), and the caller
+(`handleSchedulerFinish`) applies the same edit to the events that are still pending in its local list
+(`cachedOf` / `editPending`): the object is in one of the two places. -/
 def placementEvents (time : Int) (p : PlacementS) : SimM (List SEvent) := do
   let t := p.task
   let x ← getTask t
@@ -526,7 +545,10 @@ def handleSchedulerFinish (ev : SEvent) : SimM Unit := do
         let some st := p.strat | throw .attributeError
         row [istr time, "TASK_SCHEDULED", x.name, g.name, nstr ((m.map (·.timestamp)).getD 0), tlabel p.task,
              istr x.deadline, istr pt, plabel (p.pool.getD 0), istr st.runtime]
-      evs := evs ++ (← placementEvents time p)
+      -- a second placement of a task answered earlier in the same invocation mutates the
+      -- cached event object, which is still in the local list (not yet queued)
+      let c := cachedOf (← get) p
+      evs := editPending c p evs ++ (← placementEvents time p)
     | .evict =>
       let some pt := p.time | throw .typeError
       if pt < time then throw .valueError
